@@ -6,6 +6,13 @@ def run(ctx):
     t = ctx.tier == "thorough"
     ctx.rule = ("random programs (all profiles, failed operations included) over 1..4 nodes; after every operation the object graph of all "
                 "virtualNode instances is walked (id()-based): backing bijection, positions 0..k-1 per register, id uniqueness, numRegs, and the "
-                "population delta of the operation; the same dump is compared with the Coq model; distinct = distinct (capacities, operation, dump)")
+                "population delta of the operation; the same dump is compared with the Coq model; concurrent clients under seeded schedules over the real PB, the same walk once the network is quiescent; distinct = distinct (capacities, operation, dump)")
     netprop.run_property(ctx, "C02", ["mixed", "merge", "capacity", "stale", "refuse", "registers"], 1500 if t else 150, 30 if t else 24,
-                         scenarios=scen.placement_cases() + scen.forwarding() + scen.stale() + scen.register_api(), own_props=["C02"])
+                         scenarios=scen.placement_cases() + scen.forwarding() + scen.stale() + scen.register_api(), own_props=["C02"],
+                         extra=concurrent_part)
+
+
+def concurrent_part(ctx, env0, runners):
+    from props import concextra
+    concextra.run(ctx, "C02", concextra.judge_c02,
+                  "after concurrent operations, once nothing is in flight, the object graph satisfies the same invariant (ids unique, backing bijection, positions)")
